@@ -256,7 +256,14 @@ impl RandomDirector {
                 1 => Prop { id: 0x24, n: 3, s: vec![], t: vec![] },
                 _ => Prop { id: 0x12, n: 0, s: vec![b'x'; 70], t: vec![] },
             };
-            self.broker.outq.push_back(rc::connack(sp, 0, &[bad]));
+            // now and then a perfectly good Server Keep Alive in front of it: nothing of a rejected
+            // packet may be acted upon
+            let mut ps = Vec::new();
+            if self.chance(0.5) {
+                ps.push(Prop { id: 0x13, n: self.rng.gen_range(1..30), s: vec![], t: vec![] });
+            }
+            ps.push(bad);
+            self.broker.outq.push_back(rc::connack(sp, 0, &ps));
             self.broker.closed = true;
             return;
         }
